@@ -45,7 +45,7 @@ BOUNDS = {
                                    "rotating subsets of the shapes without / and %",
               "directives": "#if and #elif"},
     "thorough": {"literal values": "as quick",
-                 "expression shapes": "as quick + 3500 depth-2/3 trees sampled by VERIF_SEED",
+                 "expression shapes": "as quick + 2500 depth-2/3 trees sampled by VERIF_SEED",
                  "directives": "#if and #elif"},
 }
 OUTSIDE = ["macro expansion, stringification (#), token pasting (##), nested/recursive expansion, rescanning, hide sets "
@@ -285,7 +285,7 @@ def sampled_templates(rnd, n):
 def select(tier, seed):
     T = quick_templates()
     if tier == "thorough":
-        T += sampled_templates(random.Random(2600001 * seed + 26), 3500)
+        T += sampled_templates(random.Random(2600001 * seed + 26), 2500)
     return T
 
 
